@@ -36,6 +36,12 @@ FIXED = [
     ('i32', 'u32', 'i32', 'u32'),
     ('i16', 'u8', 'i8', 'i8'),
     ('u16', 'i16', 'i32', 'i8'),
+    # 64-bit unsigned components (cross products that use the top bit; order operators never see a negative
+    # denominator; conversion of 64-bit unsigned values to long double), unsigned components of different widths
+    ('u64', 'u64', 'u64', 'u64'),
+    ('u32', 'u64', 'u64', 'u32'),
+    ('i64', 'u64', 'i64', 'u64'),
+    ('u16', 'u16', 'u16', 'u16'),
 ]
 
 
